@@ -6,7 +6,8 @@
 (*   "must"   the plain forms the documentation promises                   *)
 (*   "may"    other spellings that DENOTE A FINITE VALUE of the type in a  *)
 (*            liberal numeric grammar (exponents, digit-group underscores, *)
-(*            non-ASCII decimal digits, odd but unambiguous layouts)       *)
+(*            non-ASCII decimal digits, a currency sign, thousands commas  *)
+(*            in proper groups of three, t / f for a yes-no answer)        *)
 (*   "reject" everything else -- in particular nan, inf, infinity,         *)
 (*            overflowing exponents, near-miss enumeration names, SSNs     *)
 (*            with 8 or 10 digits, blank for a choice that has no blank    *)
@@ -45,16 +46,37 @@ Sign(s) == IF s # <<>> /\ Head(s) \in {43, 45} THEN [neg |-> Head(s) = 45, rest 
 R(cls, v) == [cls |-> cls, val |-> v, exact |-> TRUE]
 Reject == R("reject", 0)
 
+(* money layout: an optional "$" after the sign, and commas between proper groups of three in the integer part *)
+RECURSIVE PrefixLen(_, _)
+PrefixLen(s, i) == IF i <= Len(s) /\ (IsADigit(s[i]) \/ s[i] = 44) THEN PrefixLen(s, i + 1) ELSE i - 1
+GroupsOk(p) ==
+  LET commas == {k \in 1..Len(p) : p[k] = 44} IN
+  \/ commas = {}
+  \/ /\ 1 \notin commas
+     /\ (CHOOSE k \in commas : \A j \in commas : k <= j) - 1 \in 1..3
+     /\ \A k \in commas : /\ k + 3 <= Len(p)
+                           /\ \A j \in (k + 1)..(k + 3) : p[j] # 44
+                           /\ (k + 3 = Len(p) \/ p[k + 4] = 44)
+NoCommas(p) == SelectSeq(p, LAMBDA c : c # 44)
+(* -> [ok, plain, rest]: rest is the text with the "$" and the grouping commas taken out *)
+Money(body) ==
+  LET dollar == body # <<>> /\ Head(body) = 36
+      b1 == IF dollar THEN Tail(body) ELSE body
+      pl == PrefixLen(b1, 1)
+      p  == SubSeq(b1, 1, pl)
+      hasComma == \E k \in 1..pl : p[k] = 44
+  IN [ok |-> GroupsOk(p), plain |-> ~dollar /\ ~hasComma, rest |-> NoCommas(p) \o SubSeq(b1, pl + 1, Len(b1))]
+
 (***************************************************************************)
 (* integer                                                                 *)
 (***************************************************************************)
 ClassInt(raw) ==
   LET s == Strip(raw) IN
   IF s = <<>> THEN R("must", 0)
-  ELSE LET sg == Sign(s) r == DigitRun(sg.rest) IN
+  ELSE LET sg == Sign(s) mo == Money(sg.rest) r == DigitRun(mo.rest) IN
        IF r.ds = <<>> \/ ~r.ok \/ r.rest # <<>> THEN Reject
-       ELSE IF Len(r.ds) > 9 THEN R("may", 0)
-       ELSE R(IF r.plain THEN "must" ELSE "may", IF sg.neg THEN 0 - Val(r.ds) ELSE Val(r.ds))
+       ELSE IF Len(r.ds) > 9 \/ ~mo.ok THEN [cls |-> "may", val |-> 0, exact |-> FALSE]     \* too long for TLC, or commas in odd places: the value is not judged
+       ELSE R(IF r.plain /\ mo.plain THEN "must" ELSE "may", IF sg.neg THEN 0 - Val(r.ds) ELSE Val(r.ds))
 
 (***************************************************************************)
 (* float: value in cents where exact (at most two fraction digits)         *)
@@ -81,10 +103,10 @@ ClassFloat(raw) ==
   LET s == Strip(raw) IN
   IF s = <<>> THEN R("must", 0)
   ELSE
-  LET sg == Sign(s) IN
+  LET sg == Sign(s) mo == Money(sg.rest) IN
   IF IsNanInf(sg.rest) THEN Reject
   ELSE
-  LET r1 == DigitRun(sg.rest)
+  LET r1 == DigitRun(mo.rest)
       hasDot == r1.rest # <<>> /\ Head(r1.rest) = 46
       afterDot == IF hasDot THEN Tail(r1.rest) ELSE r1.rest
       r2 == IF hasDot THEN DigitRun(afterDot) ELSE [ok |-> TRUE, ds |-> <<>>, plain |-> TRUE, rest |-> afterDot]
@@ -103,8 +125,8 @@ ClassFloat(raw) ==
   IN
   IF Overflows(m) THEN Reject
   ELSE
-  LET plain == ~hasExp /\ r1.plain /\ r2.plain /\ r1.ds # <<>>
-      exact == ~hasExp /\ Len(r1.ds) <= 7 /\ Len(r2.ds) <= 2
+  LET plain == ~hasExp /\ r1.plain /\ r2.plain /\ r1.ds # <<>> /\ mo.plain
+      exact == ~hasExp /\ Len(r1.ds) <= 7 /\ Len(r2.ds) <= 2 /\ mo.ok
       cents == IF ~exact THEN 0 ELSE Val(r1.ds) * 100 + (IF Len(r2.ds) = 0 THEN 0 ELSE IF Len(r2.ds) = 1 THEN r2.ds[1] * 10 ELSE r2.ds[1] * 10 + r2.ds[2])
   IN [cls |-> IF plain THEN "must" ELSE "may", val |-> IF sg.neg THEN 0 - cents ELSE cents, exact |-> exact]
 
@@ -118,7 +140,8 @@ FalseWords == {<<110, 111>>, <<110>>, <<102, 97, 108, 115, 101>>, <<111, 102, 10
 
 ClassBool(raw) ==
   LET w == LowerSeq(Strip(raw)) IN
-  IF w \in TrueWords THEN R("must", 1) ELSE IF w \in FalseWords THEN R("must", 0) ELSE Reject
+  IF w \in TrueWords THEN R("must", 1) ELSE IF w \in FalseWords THEN R("must", 0)
+  ELSE IF w = <<116>> THEN R("may", 1) ELSE IF w = <<102>> THEN R("may", 0) ELSE Reject
 
 (* members: set of code-point sequences; blankOk: the choice may be left empty *)
 ClassEnum(raw, members, blankOk) ==
